@@ -182,6 +182,7 @@ def handle (st : St) (line : String) : St × String :=
       updEntity st fun e => { e with attrs := e.attrs ++ [⟨n, l, t, some (fn, fl), none⟩] })
   | ["rule", n, l] => ok (l.toNat? >>= fun l => addRule st n l)
   | ["bareattr", n] => ok (updRule st (.bareAttr n))
+  | ["badgroup", n] => ok (updRule st (.badGroup n))
   | ["call", fn, argc] => ok (argc.toNat? >>= fun a => updRule st (.call fn a))
   | ["selfattr", n] => ok (updRule st (.selfAttr n))
   | ["smallreal", h] => ok (unhexS h >>= fun t => updRule st (.smallReal t))
